@@ -452,14 +452,17 @@ func (mr *msgReader) read(p []byte) (int, error) {
 		}
 
 		n, err := mr.c.readFramePayload(mr.ctx, p)
-		if err != nil {
-			return n, err
-		}
 
 		mr.payloadLength -= int64(n)
 
+		// Unmask whatever was read, also when the read failed part way:
+		// the n bytes are handed to the caller (or to the inflater).
 		if !mr.c.client {
-			mr.maskKey = mask(p, mr.maskKey)
+			mr.maskKey = mask(p[:n], mr.maskKey)
+		}
+
+		if err != nil {
+			return n, err
 		}
 
 		return n, nil
